@@ -5,6 +5,7 @@ import (
 	"math/bits"
 	"strings"
 
+	"github.com/paulsonkoly/chess-3/attacks"
 	"github.com/paulsonkoly/chess-3/board"
 	. "github.com/paulsonkoly/chess-3/chess"
 	"github.com/paulsonkoly/chess-3/eval"
@@ -278,12 +279,277 @@ var c17Materials = []string{
 	"Kk", "KkN", "Kkn", "KkB", "Kkb", "KkNN", "Kknn", "KkNn", "KkBb", "KkBn", "KkNb", "KkNNn", "KkBNn", "KkBbn",
 	"KkBB", "Kkbb", "KkNNN", "KkBBb", "KkBNb", "KkNNNN",
 	// knight + bishop mate, both colours
-	"KkNB", "Kknb", "KkNB", "Kknb", "KkNB", "Kknb",
+	"KkNB", "Kknb", "KkNB", "Kknb", "KkNB", "Kknb", "KkNB", "Kknb", "KkNB", "Kknb", "KkNB", "Kknb",
 	// sole passer / king distance terms, promoted material
 	"KkP", "Kkp", "KkPp", "KkRP", "Kkrp", "KkQQ", "Kkqqq", "KkRRR", "KkQp", "KkNNNP", "KkBBBp", "KkRrPp", "KkNBPp", "KkQRBNqrbn",
 	"KkPPPppp", "KkRRrrPPpp", "KkNnPPPpp", "KkBbPPppp",
 	// knights among pawns (outposts, holes), rooks (connected rooks, file/rank mobility)
 	"KkNNnnPPPPpppp", "KkNnBbPPPPPppppp", "KkNNNnnnPPpp", "KkRRrrNnPPPppp", "KkQqRrBbNnPPPPpppp",
+}
+
+// ------------------------------------------------------------------------------------------------
+// Structured families. The activation measurement (Model/EvalAct.v, lib/props.py _c17_activation)
+// showed that play-outs and random placements hardly ever switch on some terms (end-game king-attack
+// sigmoid: 0 of 3000; knight outposts: < 1 %); these generators build the configurations those
+// terms need.  Every family is built with White as the acting side and then colour-flipped with
+// probability 1/2, so that both colours get the same share.
+
+type sqArr [64]byte
+
+func (a *sqArr) occ() BitBoard {
+	var o BitBoard
+	for s, c := range a {
+		if c != 0 {
+			o |= 1 << uint(s)
+		}
+	}
+	return o
+}
+
+// flipped returns the colour-flipped mirror image of the placement.
+func (a *sqArr) flipped() sqArr {
+	var m sqArr
+	for s, c := range a {
+		switch {
+		case c >= 'a' && c <= 'z':
+			m[s^56] = c - 32
+		case c >= 'A' && c <= 'Z':
+			m[s^56] = c + 32
+		}
+	}
+	return m
+}
+
+func (a *sqArr) fen(stm Color, fifty, full int) string {
+	var sb strings.Builder
+	for r := 7; r >= 0; r-- {
+		e := 0
+		for f := 0; f < 8; f++ {
+			c := a[r*8+f]
+			if c == 0 {
+				e++
+				continue
+			}
+			if e > 0 {
+				sb.WriteByte(byte('0' + e))
+				e = 0
+			}
+			sb.WriteByte(c)
+		}
+		if e > 0 {
+			sb.WriteByte(byte('0' + e))
+		}
+		if r > 0 {
+			sb.WriteByte('/')
+		}
+	}
+	return fmt.Sprintf("%s %c - - %d %d", sb.String(), "wb"[stm], fifty, full)
+}
+
+// put places c on a random empty square accepted by ok (nil = any), pawns never on ranks 1/8.
+func (a *sqArr) put(rng *hx.Rng, c byte, ok func(s int) bool) bool {
+	for t := 0; t < 60; t++ {
+		s := rng.Intn(64)
+		if a[s] != 0 || ((c == 'p' || c == 'P') && (s < 8 || s >= 56)) {
+			continue
+		}
+		if ok != nil && !ok(s) {
+			continue
+		}
+		a[s] = c
+		return true
+	}
+	return false
+}
+
+// finish adds a few random extras, flips colours with probability 1/2 and validates.
+func (a *sqArr) finish(rng *hx.Rng, extras int, extraKinds string) *board.Board {
+	for k := 0; k < extras; k++ {
+		a.put(rng, extraKinds[rng.Intn(len(extraKinds))], nil)
+	}
+	pl := *a
+	if rng.Bool() {
+		pl = a.flipped()
+	}
+	b, err := board.FromFEN(pl.fen(Color(rng.Intn(2)), rng.Intn(60), 1+rng.Intn(80)))
+	if err != nil || !posgen.Valid(b) {
+		return nil
+	}
+	return b
+}
+
+// kingZone: a sheltered black king, 1-4 white attackers of chosen kinds aimed at the king zone
+// or at safe checking squares, few other pieces (so that the end-game weight is large).
+//
+//	mode 0  mixed attackers (bishops, knights, rooks, queens) touching the zone
+//	mode 1  "quiet" end-game attack: 2-3 bishops raking the zone and knights with checking squares
+//	        that do NOT touch the zone, full shelter (what the end-game king-attack score needs to
+//	        become positive with the shipped weights)
+//	mode 2  damaged shelter, heavy pieces
+func kingZone(rng *hx.Rng) *board.Board {
+	var a sqArr
+	mode := []int{0, 1, 1, 2}[rng.Intn(4)]
+	kf := rng.Intn(8)
+	kr := 7
+	if rng.Chance(0.15) {
+		kr = 6
+	}
+	if mode == 1 { // a full three-pawn shelter needs a king off the edge files
+		kf, kr = 1+rng.Intn(6), 7
+	}
+	ks := kr*8 + kf
+	a[ks] = 'k'
+	zone := attacks.KingMoves(Square(ks)) | 1<<uint(ks)
+	checks := attacks.KnightMoves(Square(ks))
+	// shelter pawns in front of the king
+	pShelter := 0.9
+	switch mode {
+	case 1:
+		pShelter = 0.97
+	case 2:
+		pShelter = 0.45
+	}
+	for df := -1; df <= 1; df++ {
+		f := kf + df
+		if f < 0 || f > 7 {
+			continue
+		}
+		s := (kr-1)*8 + f
+		if rng.Chance(pShelter) {
+			a[s] = 'p'
+		} else if rng.Chance(0.5) && s-8 >= 8 {
+			a[s-8] = 'p' // advanced pawn: outside the king's neighbourhood
+		}
+	}
+	// the attacking king, far away
+	if !a.put(rng, 'K', func(s int) bool { return s/8 <= 2 && attacks.KingMoves(Square(s))&zone == 0 }) {
+		return nil
+	}
+	touches := func(kind byte, s int) bool {
+		occ := a.occ()
+		switch kind {
+		case 'B':
+			return attacks.BishopMoves(Square(s), occ)&zone != 0
+		case 'R':
+			return attacks.RookMoves(Square(s), occ)&zone != 0
+		case 'Q':
+			return (attacks.BishopMoves(Square(s), occ)|attacks.RookMoves(Square(s), occ))&zone != 0
+		default:
+			return attacks.KnightMoves(Square(s))&zone != 0
+		}
+	}
+	var kinds []byte
+	switch mode {
+	case 0:
+		n := 1 + rng.Intn(4)
+		for k := 0; k < n; k++ {
+			kinds = append(kinds, "BBBNNNRQ"[rng.Intn(8)])
+		}
+	case 1:
+		kinds = []byte{'B', 'B'}
+		if rng.Chance(0.5) {
+			kinds = append(kinds, 'B')
+		}
+		for k := rng.Intn(3); k > 0; k-- {
+			kinds = append(kinds, 'N')
+		}
+		if len(kinds) == 2 {
+			kinds = append(kinds, 'N')
+		}
+	default:
+		n := 1 + rng.Intn(3)
+		for k := 0; k < n; k++ {
+			kinds = append(kinds, "RRQQBN"[rng.Intn(6)])
+		}
+	}
+	for _, kind := range kinds {
+		kind := kind
+		a.put(rng, kind, func(s int) bool {
+			if mode == 1 && kind == 'N' {
+				// a checking square in reach, the zone untouched
+				return attacks.KnightMoves(Square(s))&checks&^a.occ() != 0 && !touches('N', s)
+			}
+			if kind == 'N' && rng.Chance(0.4) {
+				return attacks.KnightMoves(Square(s))&checks&^a.occ() != 0
+			}
+			return touches(kind, s) || rng.Chance(0.1)
+		})
+	}
+	extras := rng.Intn(4)
+	if mode == 1 {
+		extras = rng.Intn(2)
+	}
+	return a.finish(rng, extras, "PPppnbrNR")
+}
+
+// outpost: a white knight on a square of Black's half that no black pawn can ever cover,
+// supported by a white pawn; also near misses (unsupported, or coverable).
+func outpost(rng *hx.Rng) *board.Board {
+	var a sqArr
+	f, r := rng.Intn(8), 3+rng.Intn(4) // ranks 4..7
+	if r == 3 && (f != 3 && f != 4) {
+		r = 4
+	}
+	s := r*8 + f
+	a[s] = 'N'
+	if rng.Chance(0.85) { // supporting pawn
+		df := 1 - 2*rng.Intn(2)
+		if f+df < 0 || f+df > 7 {
+			df = -df
+		}
+		if s-8+df >= 8 {
+			a[s-8+df] = 'P'
+		}
+	}
+	for k := rng.Intn(5); k > 0; k-- { // black pawns: mostly unable to cover the square
+		near := rng.Chance(0.15)
+		a.put(rng, 'p', func(t int) bool {
+			adj := t%8 == f-1 || t%8 == f+1
+			canCover := adj && t/8 > r
+			return canCover == near
+		})
+	}
+	for k := rng.Intn(4); k > 0; k-- {
+		a.put(rng, 'P', nil)
+	}
+	if !a.put(rng, 'K', nil) || !a.put(rng, 'k', nil) {
+		return nil
+	}
+	return a.finish(rng, rng.Intn(4), "nNbBrRqp")
+}
+
+// rookLines: two white rooks on one line with nothing between them (connected rooks), with
+// varying horizontal / vertical freedom.
+func rookLines(rng *hx.Rng) *board.Board {
+	var a sqArr
+	s := rng.Intn(64)
+	var t int
+	if rng.Bool() {
+		t = s/8*8 + rng.Intn(8)
+	} else {
+		t = rng.Intn(8)*8 + s%8
+	}
+	if t == s {
+		return nil
+	}
+	a[s], a[t] = 'R', 'R'
+	between := func(u int) bool {
+		if s/8 == t/8 && u/8 == s/8 {
+			return (u-s)*(u-t) < 0
+		}
+		if s%8 == t%8 && u%8 == s%8 {
+			return (u-s)*(u-t) < 0
+		}
+		return false
+	}
+	free := func(u int) bool { return !between(u) || rng.Chance(0.1) }
+	if !a.put(rng, 'K', free) || !a.put(rng, 'k', free) {
+		return nil
+	}
+	for k := rng.Intn(7); k > 0; k-- {
+		a.put(rng, "PPpprnbq"[rng.Intn(8)], free)
+	}
+	return a.finish(rng, 0, "p")
 }
 
 func genC17(rng *hx.Rng, n int, tier string, emit func(hx.Input)) {
@@ -295,10 +561,28 @@ func genC17(rng *hx.Rng, n int, tier string, emit func(hx.Input)) {
 	}
 	for cnt < n {
 		// special material: about a quarter of the cases
-		for k := 0; k < 16 && cnt < n; k++ {
+		for k := 0; k < 14 && cnt < n; k++ {
 			mat := c17Materials[rng.Intn(len(c17Materials))]
 			if b := placeMaterial(rng, mat); b != nil {
 				c := buildC17(rng, b, decoy, "material:"+mat, "material "+mat)
+				decoy = board.VerifRestore(b.VerifSnapshot())
+				out(c)
+			}
+		}
+		// structured families: king zone, outposts, rook lines
+		for k := 0; k < 20 && cnt < n; k++ {
+			var b *board.Board
+			kind := "kingzone"
+			switch {
+			case k < 14:
+				b = kingZone(rng)
+			case k < 18:
+				b, kind = outpost(rng), "outpost"
+			default:
+				b, kind = rookLines(rng), "rooklines"
+			}
+			if b != nil {
+				c := buildC17(rng, b, decoy, "family:"+kind, "family "+kind)
 				decoy = board.VerifRestore(b.VerifSnapshot())
 				out(c)
 			}
